@@ -4,9 +4,10 @@ EXTENDS TcpasmImpl
 CONSTANT Seed
 WrapIsns == {M - 1 - k : k \in 0..(L + 1)}
 MC_CfgsAll == [limit : {0, 1, 2, 3}, isn : {0} \cup WrapIsns]
-\* quick: every limit, two seed-rotated ISNs each
+\* quick: every limit with one seed-rotated ISN
 IsnSeq == <<0>> \o [k \in 1..(L + 2) |-> M - k]
-MC_CfgsQuick == {[limit |-> l, isn |-> IsnSeq[((l + Seed + j) % Len(IsnSeq)) + 1]] : l \in {0, 1, 2}, j \in {0, 3}}
+MC_CfgsQuick == {[limit |-> l, isn |-> IsnSeq[((l + Seed) % Len(IsnSeq)) + 1]] : l \in {0, 1, 2, 3}}
+MC_CfgsThree == {[limit |-> l, isn |-> IsnSeq[((l + Seed) % Len(IsnSeq)) + 1]] : l \in {0, 1, 2}}
 MC_CfgsWrap == [limit : {0, 2}, isn : WrapIsns]
 MC_CfgsSkip == [limit : {0, 1, 2}, isn : {0}]
 =============================================================================
